@@ -157,7 +157,14 @@ def _oracle_tv(case):
 def _corr_tv(ctx, model):
     shapes = [(4,), (5,), (4, 6), (6, 4)]
     dts = ["float32", "float64", "complex64"]
-    nh = ctx.n(7, 30)
+    # boundary histories: the number of differenced axes changes between calls (everything derived from the rank - slice,
+    # K, padding - must be rebuilt together), for both boundary conditions and both norms
+    for cls_name, circ in (("AnisotropicTVNorm", False), ("IsotropicTVNorm", True), ("IsotropicTVNorm", False)) if not ctx.thorough else \
+            [(c, b) for c in ("AnisotropicTVNorm", "IsotropicTVNorm") for b in (True, False)]:
+        ops = [{"k": "prox", "shape": [4], "dt": "float64"}, {"k": "prox", "shape": [4, 6], "dt": "float64"}, {"k": "call", "shape": [4, 6], "dt": "float64"},
+               {"k": "prox", "shape": [4], "dt": "float64"}, {"k": "prox", "shape": [6, 4], "dt": "float32"}]
+        _tv_case(ctx, model, {"kind": "tv", "cls": cls_name, "circ": circ, "pre": None, "ops": ops})
+    nh = ctx.n(6, 30)
     for h in range(nh):
         cls_name = ["AnisotropicTVNorm", "IsotropicTVNorm"][int(ctx.rng.integers(0, 2))]
         circ = bool(ctx.rng.integers(0, 2))
@@ -777,7 +784,7 @@ def _corr_modes(ctx):
         heavy = [e for e in ents if ("TVNorm" in e.name or e.kind == "optimiser" or "XRayTransform2D" in e.name)]
         rest = [e for e in ents if e not in always and e not in heavy]
         pick_h = [heavy[int(i)] for i in sorted(ctx.rng.choice(len(heavy), size=min(len(heavy), 4), replace=False))]
-        pick_r = [rest[int(i)] for i in sorted(ctx.rng.choice(len(rest), size=min(len(rest), 18), replace=False))]
+        pick_r = [rest[int(i)] for i in sorted(ctx.rng.choice(len(rest), size=min(len(rest), 15), replace=False))]
         ents = always + pick_h + pick_r
     ctx.extra["catalog_run"] = sorted(e.name for e in ents)
     # fresh-process reference (started now, collected after the in-process modes): the entries in REVERSED order, each
@@ -1039,6 +1046,12 @@ def _opt_case(ctx, model, spec, ops):
                     # the property: an object constructed without options after this history sees the literal defaults
                     # unless the history itself wrote into the options of a default-constructed object
                     wrote = any(o[0] == "mut" and o[1] == 0 for o in ops)
+                    mine = {next(iter(lit)): 1001}
+                    before = dict(mine)
+                    held = getattr(mk(mine), attr)
+                    if mine != before or (held is mine and pattern == "copyUpdate"):
+                        return {"case": c, "options_passed": repr(before), "options_afterwards": repr(mine), "object_keeps_the_callers_dict": held is mine,
+                                "what": "the constructor modified the caller's options dictionary / keeps it by reference (a later change of either is seen by the other)"}
                     fresh = getattr(mk(None), attr)
                     if not wrote and encd(fresh) != lit_enc:
                         return {"case": c, "step": k, "later_default_constructed_object_sees": repr(fresh), "literal_defaults": repr(lit),
@@ -1388,6 +1401,8 @@ def _corr_attr(ctx):
     for name, mk, attr, params, smooth in specs:
         for dt in (np.float64, np.float32):
             for mode in ("eager", "jit"):
+                if not ctx.thorough and mode == "jit" and dt is np.float32:
+                    continue  # quick tier: three of the four (dtype, mode) combinations
                 v = jnp.abs(cc._arr(ctx.rng, (2, 3), dt)) + 0.5 if "Poisson" in name else cc._arr(ctx.rng, (2, 3), dt)
                 lam = jnp.asarray(0.75, dtype=dt)
 
@@ -1543,6 +1558,67 @@ def _corr_trace_time(ctx, model):
                 break
 
 
+# ==============================================================================================
+# (A10) exhaustive small scopes: EVERY history up to a length bound over a small alphabet, for the state machines whose
+#       real counterpart is cheap to drive (the theorems hold for all lengths; this makes the tie complete up to the bound)
+
+
+def _corr_exhaustive(ctx, model):
+    import itertools
+
+    scope = {}
+    # constructor options: all op sequences over 7 operations
+    L = ctx.n(3, 4)
+    n_opts = 0
+    for spec in _opt_classes():
+        key = list(spec[3].keys())[0]
+        alphabet = [("dict", {key: 1001}), ("ctor", None), ("ctor", 1), ("ctor", 0), ("mut", 0, key, 1002), ("mut", 1, key, 1003), ("mut", 2, "other", 1004)]
+        for ln in range(1, L + 1):
+            for ops in itertools.product(alphabet, repeat=ln):
+                _opt_case(ctx, model, spec, list(ops))
+                n_opts += 1
+    scope["opts"] = {"alphabet": 7, "max_length": L, "classes": 4, "histories": n_opts}
+    # loss heap: new(2) followed by every sequence over {*3 on 0, /4 on 0, set 0, *0.5 on last, new}
+    Lh = ctx.n(3, 4)
+    n_loss = 0
+    for cls in ("SquaredL2Loss(Diag)",) + (("PoissonLoss", "SquaredL2Loss(Matrix)") if ctx.thorough else ()):
+        for ln in range(1, Lh + 1):
+            alphabet = [{"k": "mul", "i": 0, "c": 3.0}, {"k": "div", "i": 0, "c": 4.0}, {"k": "set", "i": 0, "s": 0.25}, {"k": "rmul", "i": -1, "c": 0.5}, {"k": "new", "s": 1.5}]
+            for ops in itertools.product(alphabet, repeat=ln):
+                seq, n = [{"k": "new", "s": 2.0}], 1
+                for o in ops:
+                    o = dict(o)
+                    if o.get("i") == -1:
+                        o["i"] = n - 1
+                    seq.append(o)
+                    if o["k"] != "set":
+                        n += 1
+                _loss_case(ctx, model, {"kind": "loss", "cls": cls, "ops": seq, "seed": 7})
+                n_loss += 1
+    scope["loss"] = {"alphabet": 5, "max_length": Lh, "histories": n_loss}
+    if ctx.thorough:
+        # jit slots: every op sequence up to length 3, all variants and option values
+        n_jit = 0
+        names = ["jit", "call", "adj", "gram", "gramOp"]
+        for variant in ("adjFn", "classAdj", "plain"):
+            for jit_opt in (None, True):
+                for ln in range(1, 4):
+                    for ops in itertools.product(names, repeat=ln):
+                        _jit_case(ctx, model, variant, jit_opt, list(ops))
+                        n_jit += 1
+        scope["jit"] = {"alphabet": 5, "max_length": 3, "histories": n_jit}
+        # TV cache: every history up to length 3 over {call, prox} x {(4,) float32, (4,) float64} (same shape, two dtypes)
+        n_tv = 0
+        alphabet = [{"k": k, "shape": [4], "dt": d} for k in ("call", "prox") for d in ("float32", "float64")]
+        for pre in (None, [[4], "float32"]):
+            for ln in range(1, 4):
+                for ops in itertools.product(alphabet, repeat=ln):
+                    _tv_case(ctx, model, {"kind": "tv", "cls": "AnisotropicTVNorm", "circ": True, "pre": pre, "ops": [dict(o) for o in ops]})
+                    n_tv += 1
+        scope["tv"] = {"alphabet": 4, "max_length": 3, "histories": n_tv}
+    ctx.extra["exhaustive_scopes"] = scope
+
+
 def _run_corpus(ctx, model):
     d = common.CORPUS_DIR / PROP
     if not d.exists():
@@ -1620,6 +1696,7 @@ def correspond(ctx, model):
     timed("attr", _corr_attr, ctx)
     timed("reuse", _corr_reuse, ctx)
     timed("trace", _corr_trace_time, ctx, model)
+    timed("exhaustive", _corr_exhaustive, ctx, model)
     timed("mutation", _corr_mutation, ctx)
     timed("modes", _corr_modes, ctx)
     _global_state_check(ctx, state0)
